@@ -148,17 +148,16 @@ fn check_reference(st: &Store, e: Node, ra: &RefMap, rn: &RefMap, out: &mut Out,
     }
     // ... and the written text: every declaration of the view is in the start tag, in the order of the view (read back by
     // parsing what was written; a serialisation that fails — a name without a usable prefix — is not judged here)
-    // (a prefix bound to "no namespace" through the API has no spelling in XML: such an element is outside this clause)
-    let expressible = st.xot.descendants(e).all(|d| !st.xot.is_element(d) || st.xot.namespaces(d).iter().all(|(p, n)| p == st.xot.empty_prefix() || *n != st.xot.no_namespace()))
-        && st.xot.ancestors(e).all(|d| !st.xot.is_element(d) || st.xot.namespaces(d).iter().all(|(p, n)| p == st.xot.empty_prefix() || *n != st.xot.no_namespace()));
-    if !expressible { return; }
+    // (a prefix bound to "no namespace" through the API has no spelling in XML — `xmlns:p=""` is not allowed — and no name is
+    // written with it: such a pair is left out, everything else is written, and the text parses)
     if let Ok(Ok(text)) = guard(|| st.xot.to_string(e)) {
         let mut x2 = Xot::new();
         match guard(|| x2.parse(&text)) {
             Ok(Ok(doc)) => {
                 let top = x2.document_element(doc).unwrap();
                 let written: Vec<(String, String)> = x2.namespaces(top).iter().map(|(p, n)| (x2.prefix_str(p).to_string(), x2.namespace_str(*n).to_string())).collect();
-                let view: Vec<(String, String)> = st.xot.namespaces(e).iter().map(|(p, n)| (st.xot.prefix_str(p).to_string(), st.xot.namespace_str(*n).to_string())).collect();
+                let view: Vec<(String, String)> = st.xot.namespaces(e).iter().filter(|(p, n)| *p == st.xot.empty_prefix() || **n != st.xot.no_namespace())
+                    .map(|(p, n)| (st.xot.prefix_str(p).to_string(), st.xot.namespace_str(*n).to_string())).collect();
                 // the declarations of the view, as a subsequence of what was written (in front of them come the bindings the
                 // element inherits, and the serialiser may add an xmlns="" of its own)
                 let mut it = written.iter();
